@@ -15,6 +15,7 @@ def check(tree, rep, tier='quick', seed=0):
     core = get_core(tree)
     R.k1_success_condition(core, rep)    # success => nothing demanded is left unmet (first sentence of the property)
     R.k12_schedule_once(core, rep)
+    R.k12c_who_calls(core, rep)
     R.k24_tracker_shape(core, rep, parts=('a', 'b'))   # a registered waiter is never dropped: its line would be missing from a 'solved' return
     R.k13_add_form(core, rep)
     R.k14_solution_lists_all(core, rep)
